@@ -37,6 +37,14 @@ def main():
     if args and args[0] == "--props":
         props = args[1].split(","); args = args[2:]
     ids = args or sorted(d for d in os.listdir(f"{V}/twins") if os.path.isdir(f"{V}/twins/{d}"))
+    def _obsolete(t):
+        try:
+            return bool(json.load(open(f"{V}/twins/{t}/meta.json")).get("obsolete"))
+        except (OSError, ValueError):
+            return False
+    for t in [t for t in ids if _obsolete(t)]:
+        print(f"{t}: OBSOLETE (see meta.json)")
+    ids = [t for t in ids if not _obsolete(t)]
     fa = e2 = 0
     with ThreadPoolExecutor(int(os.environ.get("TWIN_JOBS", "8"))) as ex:
         for tid, out in ex.map(lambda t: one(t, props), ids):
